@@ -63,6 +63,7 @@ type Fixtures struct {
 	NotYet    tls.Certificate
 	Public    tls.Certificate // valid only for public.example (ECH public name)
 	Chain3    tls.Certificate // leaf + 2 extra certs in the chain (bigger Certificate message)
+	LongLived tls.Certificate // valid for the CA's whole lifetime (scenarios that cannot fix the clock: Roller)
 }
 
 // Names every "valid" leaf covers.
@@ -142,6 +143,7 @@ func build() *Fixtures {
 	f.NotYet = leaf(f.CACert, f.caKey, "not yet", &ek.PublicKey, ek, Names, Now.AddDate(0, 0, 10), Now.AddDate(2, 0, 0))
 	f.Public = leaf(f.CACert, f.caKey, "public", &ek.PublicKey, ek, []string{"public.example"}, nb, na)
 	f.Chain3 = leaf(f.CACert, f.caKey, "chain3", &ek.PublicKey, ek, Names, nb, na, f.CACert.Raw, oca.Raw)
+	f.LongLived = leaf(f.CACert, f.caKey, "long lived", &ek.PublicKey, ek, Names, Now.AddDate(-5, 0, 0), Now.AddDate(10, 0, 0))
 	return f
 }
 
